@@ -301,7 +301,7 @@ int World::exec_array(const Op &op) {
         bool cal = op.kind == OP_arr_read_cal;
         if (m.dtype == DataType::String) {
             if (cal && (m.has_origin || !m.poly.empty())) return 2;
-            std::vector<std::string> got(n);
+            std::vector<std::string> got(n, std::string("\x01never-assigned"));
             try { if (cal) x.getData(DataType::String, got.data(), to_nd(cntv), to_nd(off)); else x.getDataDirect(DataType::String, got.data(), to_nd(cntv), to_nd(off)); }
             catch (const std::exception &e) { fail("C01.read-equals-model", std::string("in-bounds read threw: ") + e.what()); return 1; }
             bool bad = false; size_t at = 0;
@@ -344,7 +344,7 @@ int World::exec_array(const Op &op) {
         }
         if (transform) {
             // raw reads and stored values are unaffected by calibration
-            std::string raw(n * mes, '\0'), wantraw(n * mes, '\0');
+            std::string raw(n * mes, '\x5a'), wantraw(n * mes, '\0');
             try { x.getDataDirect(m.dtype, &raw[0], to_nd(cntv), to_nd(off)); } catch (const std::exception &e) { fail("C01.raw-unaffected", std::string("raw read threw: ") + e.what()); return 0; }
             for_slab(m.extent, off, cntv, [&](size_t lin, size_t k) { memcpy(&wantraw[k * mes], &m.raw[lin * mes], mes); });
             if (raw != wantraw) fail("C01.raw-unaffected", "raw read differs from the stored values while a calibration is set");
